@@ -152,11 +152,29 @@ fn case_run(t: &mut Tape, st: &mut Stats) -> Verdict {
     let form = t.below(3);
     let dir = format!("{}/c20-{:?}", scratch_root(), std::thread::current().id()).replace(['(', ')'], "");
     let _ = std::fs::create_dir_all(&dir);
-    let path = format!("{}/script.ds", dir);
+    let mut path = format!("{}/script.ds", dir);
+    let mut text = text;
     // library decision, in process, same SDK
     hz_reset();
     let lib = if form == 0 {
-        std::fs::write(&path, &text).expect("write");
+        if t.chance(1, 3) {
+            // the script pulls in a file by a relative path and is reached through a symbolic link in another
+            // directory: the tool must look where the library looks (both are given the same path)
+            let _ = std::fs::create_dir_all(format!("{}/real", dir));
+            let _ = std::fs::create_dir_all(format!("{}/link", dir));
+            text = format!("!include_files ./inc.ds\n{}", text);
+            std::fs::write(format!("{}/real/script.ds", dir), &text).expect("write");
+            std::fs::write(format!("{}/link/inc.ds", dir), "echo from the file next to the link\n").expect("write");
+            if t.flip() {
+                std::fs::write(format!("{}/real/inc.ds", dir), "echo from the file next to the link target\n").expect("write");
+                st.class("decoy-include-next-to-the-link-target");
+            }
+            path = format!("{}/link/script.ds", dir);
+            std::os::unix::fs::symlink("../real/script.ds", &path).expect("symlink");
+            st.class("script-reached-through-a-symlink-with-relative-include");
+        } else {
+            std::fs::write(&path, &text).expect("write");
+        }
         run_file(&path, sdk_context(), 100_000, None)
     } else {
         run_text(&text, sdk_context(), 100_000, None)
@@ -353,7 +371,7 @@ fn case_info(t: &mut Tape, _st: &mut Stats) -> Verdict {
 pub fn property() -> Property {
     Property {
         id: "C20",
-        rule: "(run) generated deterministic scripts (echo / set / calc / if-else / for-in / functions / goto / survivable errors) ending by success, unknown command, failing assert, exit with a non-zero code (incl. 256, 512, 65536, negative), exit 0, exit with text, a malformed line (C08 kinds), or exit_on_error + error, followed by lines that must not run; each is run by the library in process (same SDK, captured output) and by the real duck binary as 'duck file', 'duck -e text' or 'duck --eval text': exit status 0 iff the library run is Ok, otherwise non-zero with stdout containing 'Error: ' + the library error's Display, and the stdout before it equal to the library output; (lint) files whose labels / commands / output variables are spelled over lower-case, digits, '_', non-ASCII lower (é ß я 日) with at most one planted upper-case letter (A Z É Я Σ Q) in a label (also alone on its line), command or output, upper-case arguments and comments everywhere, optionally a malformed last line: 'duck -l|--lint file' exits 0 iff the file parses and every label, command and output is lower-case by an independent per-character predicate; (info) --version prints the three version strings, --help/-h print the usage. Non-trivial: a script that printed something and (for failures) failed after that; distinct by (script, form)",
+        rule: "(run) generated deterministic scripts (echo / set / calc / if-else / for-in / functions / goto / survivable errors) ending by success, unknown command, failing assert, exit with a non-zero code (incl. 256, 512, 65536, negative), exit 0, exit with text, a malformed line (C08 kinds), or exit_on_error + error, followed by lines that must not run; each is run by the library in process (same SDK, captured output) and by the real duck binary as 'duck file' (one file case in three: the file is a symbolic link in another directory and starts with a relative !include_files, with or without a decoy of the same name next to the link target; library and tool are given the same path), 'duck -e text' or 'duck --eval text': exit status 0 iff the library run is Ok, otherwise non-zero with stdout containing 'Error: ' + the library error's Display, and the stdout before it equal to the library output; (lint) files whose labels / commands / output variables are spelled over lower-case, digits, '_', non-ASCII lower (é ß я 日) with at most one planted upper-case letter (A Z É Я Σ Q) in a label (also alone on its line), command or output, upper-case arguments and comments everywhere, optionally a malformed last line: 'duck -l|--lint file' exits 0 iff the file parses and every label, command and output is lower-case by an independent per-character predicate; (info) --version prints the three version strings, --help/-h print the usage. Non-trivial: a script that printed something and (for failures) failed after that; distinct by (script, form)",
         assumptions: &[
             "the duck binary is built from /repo's working tree by check.sh (cargo build -p duckscript_cli, hooks off)",
             "REPL mode (no arguments) and title-case letters are not generated",
@@ -366,7 +384,7 @@ pub fn property() -> Property {
                     Tier::Thorough => Plan::Random { cases: 400_000, max_len: 300 },
                 },
                 case: case_run,
-                min_classes: &[("ending-ExitNonZero", 200), ("ending-ParseError", 100), ("ending-FatalError", 200), ("form-file", 800), ("form-eval", 800)],
+                min_classes: &[("ending-ExitNonZero", 200), ("ending-ParseError", 100), ("ending-FatalError", 200), ("form-file", 800), ("form-eval", 800), ("script-reached-through-a-symlink-with-relative-include", 200)],
             },
             Section {
                 name: "lint",
